@@ -151,6 +151,21 @@ def rule_bindings_table(chk, cases):
     chk.floor("C05.floor/descriptor-types", len(names), 21, "object kinds with a descriptor type")
 
 
+def rule_folded_thread_group_size(chk):
+    """The reported thread-group size is the constant folder's value of the numthreads arguments, while the emitted text
+    carries the arguments as written (to be evaluated by the target compiler): the two agree only if evaluate_operator and
+    evaluate_cast have the run-time semantics. The C13 operator and cast tables are therefore also obligations of C05
+    (keys C13.op/.., C13.cast/..)."""
+    import c13
+    f = chk.facts
+    ev = f.fn("evaluate_operator", c13.TY)
+    ec = f.fn("evaluate_cast", c13.TY)
+    if ev and not c13.rule_op_eval(chk, ev):
+        c13.rule_op(chk, ev)
+    if ec:
+        c13.rule_cast(chk, ec)
+
+
 def rule_address_type(chk):
     """The declared type of a BufferAddress / RWBufferAddress global in the HLSL text, read from generate_type_impl with the
     context the real GenerateContext::new builds, under the module flags of the three HLSL configurations (DirectX; Vulkan
@@ -220,6 +235,7 @@ def run(chk):
     else:
         chk.note("C05: %s: the shape rules decide" % cases)
     rule_address_type(chk)
+    rule_folded_thread_group_size(chk)
     for crate, tgt in (("rssl_hlsl", "hlsl"), ("rssl_msl", "msl")):
         ab = chk.anchor("C05.anchor/%s/analyse_bindings" % tgt, f.fn("analyse_bindings", crate), "%s analyse_bindings" % tgt)
         if not ab or evaluated:
